@@ -294,6 +294,13 @@ def case_likelihood(case):
         full = ref - 0.5 * n * (math.log(2 * math.pi) + 1)
         r.close("loglikelihood==definition", nrm.loglikelihood(data), full, rtol=1e-7, atol=1e-7, lam=lam)
         r.close("likelihood==exp(loglikelihood)", nrm.likelihood(data), math.exp(full), rtol=1e-6, lam=lam)
+        # missing (NaN) and out-of-range entries are not part of the sample
+        dm = ref_domain(cls, lam, shift)
+        bad = [np.nan, np.nan, np.nan] + ([dm[0] - 1.0, dm[0] - 0.25] if np.isfinite(dm[0]) else []) + ([dm[1] + 0.5] if np.isfinite(dm[1]) else [])
+        dirty = np.insert(np.asarray(data, dtype=float), [0, 3, 3, len(data) // 2, len(data) - 1, len(data) - 1][: len(bad)], bad)
+        if np.all((data > dm[0]) & (data < dm[1])):
+            r.close("loglikelihood of a sample with NaN / out-of-range entries == loglikelihood of its valid entries", nrm.loglikelihood(dirty), full, rtol=1e-7, atol=1e-7, lam=lam)
+            r.close("kernel_loglikelihood of a sample with NaN / out-of-range entries == that of its valid entries", nrm.kernel_loglikelihood(dirty), ref, rtol=1e-7, atol=1e-7, lam=lam)
         if cls == "LogNormal":
             break
     if cls == "LogNormal":
@@ -463,6 +470,25 @@ def case_pipeline(case):
                 derived = False
             if derived:
                 r.close("stored output still == trend + denormalize(mean + raw) after deriving another field with process=True", np.array(obj.field, dtype=float), exp, rtol=1e-9, atol=1e-12)
+    # the mean of the kriging system goes through the same pipeline (without the trend)
+    if kind == "Krige" and not callable(mean):
+        cp_, cv_ = obj.cond_pos, obj.cond_val
+        for unb in (False, True):
+            try:
+                ko = gs.Krige(obj.model, cp_, cv_, mean=mean if not unb else None, normalizer=nrm, trend=trend, unbiased=unb)
+            except Exception:  # noqa (conditioning values outside the domain of the normalizer)
+                continue
+            rawm = ko.get_mean(post_process=False)
+            gm = ko.get_mean()
+            if gm is None or rawm is None:
+                continue
+            mval = 0.0 if (mean is None or unb) else float(mean)
+            expm = rawm + mval if ncls is None else float(_ref_denorm(ncls, lam, 0.25, rawm + mval))
+            if np.isfinite(expm):
+                r.close("get_mean() == denormalize(mean + raw kriging mean)", gm, expm, rtol=1e-9, atol=1e-12, unbiased=unb)
+                fm = ko(pos, only_mean=True, **kw)
+                fm = fm[0] if isinstance(fm, tuple) else fm
+                r.close("only_mean field == get_mean() + trend", np.asarray(fm, dtype=float), expm + np.asarray(trend_f(*pts), dtype=float), rtol=1e-9, atol=1e-12, unbiased=unb)
     return r.done(outcome=[round(float(v), 8) for v in np.ravel(out)[:3]])
 
 
